@@ -9,7 +9,7 @@ Here the parser is inside the model: `urlParts` composes the model of `ensure_pr
 (`UrlParts.ensureProtocol`, ensure_protocol.py:22-29, default protocol `"http"`) with the model
 of CPython's `urlsplit` (`Py.urlsplit`, `Py/UrlSplit.lean`), so that
 
-* `lruStemsUrl sa u`  is `lru_stems(u, suffix_aware=sa)`   (stems.py:95-107),
+* `lruStemsUrl sa u`  is `lru_stems(u, suffix_aware=sa)`   (stems.py:100-112),
 * `urlToLru sa u`     is `url_to_lru(u, suffix_aware=sa)`  (conversion.py:6-7),
 
 `none` standing for the `ValueError` `urlsplit` raises on a malformed authority.  Both are
@@ -32,7 +32,7 @@ def splitOfParts (p : Parts) : SplitResult :=
 /-- the default protocol of `ensure_protocol` -/
 def httpProto : Str := ['h', 't', 't', 'p']
 
-/-- `urlsplit(ensure_protocol(url))` (stems.py:106-107); `none` = `ValueError` -/
+/-- `urlsplit(ensure_protocol(url))` (stems.py:111-112); `none` = `ValueError` -/
 def urlParts (u : Str) : Option Parts :=
   (Py.urlsplit (UrlParts.ensureProtocol u httpProto) []).map partsOfSplit
 
@@ -50,31 +50,22 @@ def lruStemsUrl (sa : Bool) (u : Str) : Option (List Str) :=
 def urlToLru (sa : Bool) (u : Str) : Option Str :=
   (lruStemsUrl splitSuffix sa u).map serializeLru
 
-/-! ## the class of URL strings of the string-level theorems (specification vocabulary) -/
+end
 
-/-- suffix-aware mode: a bracketed IP literal has no public suffix (`split_suffix` answers
-`None`: always so for a pure hex/colon literal — `is_special_host` —, and for an embedded-IPv4
-literal as long as no public suffix is a number; NOT so for a zone id or an IPvFuture literal
-whose text ends with a public suffix: known finding KF-C12-1); a plain host has no `%`
-(CPython's `.hostname` does not lower-case what follows a `%`) -/
-def saHostOK (n : Str) : Bool :=
-  if (specHost n).head? == some '[' then (splitSuffixParsed splitSuffix n).isNone
-  else noneOf ['%'] (specHost n)
+/-! ## the class of URL strings of the string-level theorems (specification vocabulary) -/
 
 /-- the components of a URL of the class: no `|`; netloc inside the grammar (`wfNetloc`: at
 most one `@`, host bracketed or free of `:[]`, port free of `:[]`); a host; no raw bracket in
-the userinfo; `saHostOK` in suffix-aware mode -/
-def inClassParts (sa : Bool) (p : Parts) : Bool :=
+the userinfo.  The same class for both modes; `split_suffix` is not consulted -/
+def inClassParts (p : Parts) : Bool :=
   noBar p && wfNetloc p.netloc && (specHost p.netloc != []) &&
-    noneOf ['[', ']'] ((authOf p.netloc).getD []) && (!sa || saHostOK splitSuffix p.netloc)
+    noneOf ['[', ']'] ((authOf p.netloc).getD [])
 
 /-- **the class of URL strings** of the string-level round trip: the (modelled) parser accepts
 `ensure_protocol(u)` and its components are in `inClassParts` -/
-def inClass (sa : Bool) (u : Str) : Bool :=
+def inClass (u : Str) : Bool :=
   match urlParts u with
   | none => false
-  | some p => inClassParts splitSuffix sa p
-
-end
+  | some p => inClassParts p
 
 end Ural.Lru
